@@ -328,3 +328,24 @@ package expr
 //@     invariant output == seqRes(es, K, N, input, i)
 //@     invariant forall k int :: 0 <= k && k < i ==> evalErr(es[k], K, N, seqRes(es, K, N, input, k)) == nil
 //@   assigns ctx.LastResult, ctx.BeforeLastResult
+//
+// ---- C17: environment variables --------------------------------------------------------------
+// An unknown variable is an evaluation error; a known one evaluates to exactly the stored value,
+// a collection being spliced in (not nested), anything else as a one-item collection.
+//@ func (e *ExternalConstantExpression) Evaluate(ctx, input) (res, err)
+//@   requires e != nil && ctx != nil
+//@   let m = ctx.ExternalConstants
+//@   let v = m[e.Identifier]
+//@   ensures !haskey(m, e.Identifier) ==> is(err, ErrConstantNotFound) && len(res) == 0
+//@   ensures haskey(m, e.Identifier) ==> err == nil
+//@   ensures haskey(m, e.Identifier) && istype(v, system.Collection) ==> res == unbox(v, system.Collection)
+//@   ensures haskey(m, e.Identifier) && !istype(v, system.Collection) ==> len(res) == 1 && res[0] == v
+//@   assigns nothing
+
+// The predefined variables: %context is the input collection and %ucum the UCUM URL; nothing
+// else is predefined.
+//@ func InitializeContext(input) (res)
+//@   ensures res != nil && res.ExternalConstants != nil
+//@   ensures haskey(res.ExternalConstants, "context") && res.ExternalConstants["context"] == box(input)
+//@   ensures haskey(res.ExternalConstants, "ucum") && res.ExternalConstants["ucum"] == box(system.String("http://unitsofmeasure.org"))
+//@   ensures forall s string :: s != "context" && s != "ucum" ==> !haskey(res.ExternalConstants, s)
